@@ -399,7 +399,7 @@ pub fn horizon_of(case: &Case) -> u64 {
     let mut total: u64 = 0;
     let mut max_timer: u64 = 0;
     let mut beh = |b: &Behavior| {
-        let mut t = steps_sleep(&b.started) + steps_sleep(&b.stopped) + steps_sleep(&b.finished);
+        let mut t = steps_sleep(&b.started) + steps_sleep(&b.stopped) + steps_sleep(&b.finished) + 12 * steps_sleep(&b.aux_work);
         for s in b.started.iter().chain(&b.stopped).chain(&b.finished) {
             if let Step::AddTimer(ts) = s {
                 max_timer = max_timer.max(ts.ticks as u64);
